@@ -118,7 +118,7 @@ struct Machine {
         else if (n == "AN") { if (is_c(v)) s[v].c() = PC(new Obj(static_cast<int>(f[1]))); else s[v].m() = PM(new Obj(static_cast<int>(f[1]))); }
         else if (n == "R") { if (is_c(v)) s[v].c().reset(); else s[v].m().reset(); }
         else if (n == "SW") {
-            if (is_c(v)) { if (f[1] % 2 == 1 && v < w) swap(s[v].c(), s[w].c()); else s[v].c().swap(s[w].c()); }
+            if (is_c(v)) { if (v < w) swap(s[v].c(), s[w].c()); else s[v].c().swap(s[w].c()); }
             else { if (v < w) swap(s[v].m(), s[w].m()); else s[v].m().swap(s[w].m()); }
         }
         else if (n == "U") { if (is_c(v)) s[v].c().unify(); else s[v].m().unify(); }
